@@ -23,7 +23,7 @@ pub fn get_message(squitter: &str) -> Option<Vec<u32>> {
     clean_squitter(squitter)
         .filter(|message| matches!(message.len(), 14 | 28))
         .filter(|message| length_matches_format(message))
-        .filter(|message| reminder(message) == 0)
+        .filter(|message| parity_ok(message))
 }
 
 /// A frame is 56 bits long for DF 0-15 and 112 bits long for DF 16-31 (first bit of DF set).
